@@ -40,7 +40,8 @@ KF_TABLE = [
     ("KF-C20-lint-null-maintainer", r"lint/rules\.validateChartMaintainer",
      lambda c: c["mode"] == "doc" and c["doc"] == "chartyaml" and any(p.startswith("maintainers") for p in dev_paths(c))),
     ("KF-C20-release-record-without-info-or-chart",
-     r"pkg/action\.\(\*Status\)\.Run|pkg/action\.\(\*GetMetadata\)\.Run|pkg/action\.\(\*List\)\.filterStateMask|pkg/action\.\(\*Upgrade\)\.prepareUpgrade|chart/v2/util\.coalesceValues",
+     r"pkg/action\.\(\*Status\)\.Run|pkg/action\.\(\*GetMetadata\)\.Run|pkg/action\.\(\*List\)\.filterStateMask|pkg/action\.\(\*Upgrade\)\.prepareUpgrade|chart/v2/util\.coalesceValues"
+     r"|pkg/cmd\.getReleaseHistory|pkg/cmd\.statusPrinter\.WriteTable|pkg/cmd\.newGetNotesCmd",   # the same records printed by helm history / helm get all
      lambda c: c["mode"] == "doc" and c["doc"] == "release" and any(
          p == "" or p.startswith("info") or p.startswith("chart") for p in dev_paths(c))),
     ("KF-C20-index-merge-into-index-without-entries", r"pkg/repo\.\(\*IndexFile\)\.Merge .*index\.go:259",
